@@ -37,6 +37,10 @@ pub struct P18 {
     /// (LANG=C, LC_ALL=C, TZ=GMT, COLUMNS=80, ...), as CI jobs that pin the locale do
     #[serde(default)]
     pub pinned_env: bool,
+    /// `scrut test` only: 1 = a document is prepended with -P, 2 = one is appended with -A,
+    /// 3 = both; their test cases run as part of every given document
+    #[serde(default)]
+    pub pre_post: u8,
 }
 
 #[derive(Clone, Debug, Serialize, Deserialize)]
@@ -59,12 +63,23 @@ fn case_strategy() -> BoxedStrategy<Case18> {
         proptest::bool::weighted(0.1),
         prop_oneof![6 => Just(0u8), 1 => Just(1u8), 1 => Just(2u8)],
         proptest::bool::weighted(0.4),
+        prop_oneof![3 => Just(0u8), 1 => Just(1u8), 1 => Just(2u8), 1 => Just(3u8)],
     )
-        .prop_map(|(mut docs, flag, parse_error, command, pinned_env)| {
+        .prop_map(|(mut docs, flag, parse_error, command, pinned_env, pre_post)| {
             // one document per slot
             let mut seen = BTreeSet::new();
             docs.retain(|d| seen.insert(d.slot));
-            P18 { docs, flag, parse_error, command, pinned_env }
+            let pre_post = if command == 0 { pre_post } else { 0 };
+            if pre_post != 0 {
+                // prepended / appended documents are Markdown and need a shell that starts
+                for d in docs.iter_mut() {
+                    d.cram = false;
+                    if d.outcome == 4 {
+                        d.outcome = 0;
+                    }
+                }
+            }
+            P18 { docs, flag, parse_error, command, pinned_env, pre_post }
         });
     vec(p, 1..4).prop_map(|procs| Case18 { procs }).boxed()
 }
@@ -162,6 +177,8 @@ fn check_case(c: &Case18) -> V {
         expect_exit: i32,
         command: u8,
         pinned_env: bool,
+        pre_post: u8,
+        pi: usize,
     }
     let mut planned = vec![];
     let mut dump = String::new();
@@ -209,6 +226,22 @@ fn check_case(c: &Case18) -> V {
             std::fs::write(&bad, "```scrut\nexpectation but no command\n```\n").ok();
             args.push(bad.to_string_lossy().to_string());
         }
+        if p.command == 0 && p.pre_post != 0 {
+            // (-P / -A take several values: they follow the document paths)
+            let inc = base.join("inc");
+            std::fs::create_dir_all(&inc).ok();
+            for (bit, flag, name) in [(1u8, "-P", "pre"), (2u8, "-A", "post")] {
+                if p.pre_post & bit != 0 {
+                    let path = inc.join(format!("{name}.md"));
+                    let log = LOG_CMD.replace("$VERIF_DOC", &format!("p{pi}{name}"));
+                    let text = format!("# {name}\n\n```scrut\n$ {log}\n```\n");
+                    std::fs::write(&path, &text).ok();
+                    dump.push_str(&format!("--- {} ({flag}):\n{text}\n", path.display()));
+                    args.push(flag.into());
+                    args.push(path.to_string_lossy().to_string());
+                }
+            }
+        }
         if p.command == 2 {
             // `scrut create` takes a shell expression instead of documents
             let keep: Vec<String> = args.iter().take_while(|a| !a.ends_with(".md") && !a.ends_with(".t") || a.ends_with("created.md")).cloned().collect();
@@ -229,6 +262,8 @@ fn check_case(c: &Case18) -> V {
             expect_exit,
             command: p.command,
             pinned_env: p.pinned_env,
+            pre_post: if p.command == 0 { p.pre_post } else { 0 },
+            pi,
         });
     }
     // start all scrut processes together, sharing one TMPDIR
@@ -272,6 +307,7 @@ fn check_case(c: &Case18) -> V {
         .label_if(c.procs.iter().any(|p| p.flag == 1), "work_directory_flag")
         .label_if(c.procs.iter().any(|p| p.flag == 2), "keep_flag")
         .label_if(c.procs.iter().any(|p| p.pinned_env), "documented_values_already_in_environment")
+        .label_if(c.procs.iter().any(|p| p.command == 0 && p.pre_post != 0), "prepended_or_appended_document")
         .label_if(c.procs.iter().any(|p| p.command == 1), "update_command")
         .label_if(c.procs.iter().any(|p| p.command == 2), "create_command")
         .label_if(c.procs.iter().any(|p| p.docs.iter().filter(|d| d.slot < 2).count() == 2), "identical_file_names");
@@ -396,6 +432,70 @@ fn check_case(c: &Case18) -> V {
                 let w = std::fs::canonicalize(w).unwrap_or(w.clone());
                 if Path::new(cwd) != w {
                     return fail(format!("document {id} runs in {cwd} although --work-directory {} is given", w.display()));
+                }
+            }
+        }
+    }
+    // 2b. test cases of prepended / appended documents run as part of each given document: same
+    // working directory, TESTDIR / TESTFILE / TMPDIR of that document, documented values afresh
+    for (p, r) in planned.iter().zip(results.iter()) {
+        if p.pre_post == 0 || p.parse_error || r.code != Some(p.expect_exit) {
+            continue;
+        }
+        let log = std::fs::read_to_string(&p.log).unwrap_or_default();
+        let rows: Vec<Vec<String>> = log.lines().map(|l| l.split('|').map(String::from).collect()).collect();
+        // documents run one after the other, so the log is ordered: a prepended test case belongs
+        // to the given document whose test cases follow it, an appended one to the one before it
+        let owner = |row: usize, forward: bool| -> Option<(String, String, String, String)> {
+            let mut k = row as isize;
+            loop {
+                k += if forward { 1 } else { -1 };
+                if k < 0 || k as usize >= rows.len() {
+                    return None;
+                }
+                let f = &rows[k as usize];
+                if let Some((_, ddir, name, _, _, _)) = p.docs.get(&f[0]) {
+                    return Some((f[1].clone(), ddir.to_string_lossy().to_string(), name.clone(), f[5].clone()));
+                }
+            }
+        };
+        for (bit, name) in [(1u8, "pre"), (2u8, "post")] {
+            if p.pre_post & bit == 0 {
+                continue;
+            }
+            let id = format!("p{}{name}", p.pi);
+            let entries: Vec<(usize, &Vec<String>)> = rows.iter().enumerate().filter(|(_, f)| f[0] == id).collect();
+            // a prepended test case runs with every document; an appended one unless the document
+            // ended early (timeout, skip)
+            let want = if name == "pre" { p.docs.len() } else { p.docs.values().filter(|d| d.5 <= 1).count() };
+            if entries.len() != want {
+                return fail(format!("the {name}pended test case ran {} times, expected {want} (once per given document that reaches it)", entries.len()));
+            }
+            for (row, f) in entries {
+                let what = format!("{name}pended test case running in {}", f[1]);
+                let Some((cwd, testdir, testfile, tmpdir)) = owner(row, name == "pre") else {
+                    return fail(format!("{what}: no test case of a given document runs {} it", if name == "pre" { "after" } else { "before" }));
+                };
+                if f[1] != cwd {
+                    return fail(format!("{what}: the document it runs with uses {cwd}"));
+                }
+                let checks: Vec<(&str, &str, String)> = vec![
+                    ("TESTDIR", &f[2], testdir.clone()),
+                    ("TESTFILE", &f[3], testfile.clone()),
+                    ("TESTSHELL", &f[4], bash.to_string_lossy().to_string()),
+                    ("TMPDIR", &f[5], tmpdir.clone()),
+                    ("LANG", &f[6], "C".into()),
+                    ("LANGUAGE", &f[7], "C".into()),
+                    ("LC_ALL", &f[8], "C".into()),
+                    ("TZ", &f[9], "GMT".into()),
+                    ("COLUMNS", &f[10], "80".into()),
+                    ("CDPATH", &f[11], "".into()),
+                    ("GREP_OPTIONS", &f[12], "".into()),
+                ];
+                for (var, got, want) in checks {
+                    if got != want {
+                        return fail(format!("{what}: {var}={got:?}, the document it runs with has {want:?}"));
+                    }
                 }
             }
         }
